@@ -30,6 +30,11 @@
 (*   create failure: RelId (release the id);  CDel = delete the record again when the list    *)
 (*   append failed (ONLY in the repaired design, CreateRb)                                    *)
 (*   RelClaim  Delete conncode:claimed:<code> after any failure that follows a won claim      *)
+(*   (DESIGN.md Appendix A names: ActReadCode+ActCheck = Read, ActQuotaRead = QList/QGet,      *)
+(*    ActGenId = GenId, ActCreateRec = CGet/CSet/CApp, ActIndexListen/Target = IdxL/IdxT,      *)
+(*    ActMark = the tail of IdxT, ActUpdateByCode/ById = UpdC/UpdI, ActRollback = Rb*.         *)
+(*    ActCheck and ActMark are pure in-memory code with no storage call before them that a     *)
+(*    scheduler could separate from the preceding step, hence merged.)                         *)
 (* Revoker: RRead (Get + Revoke() on the snapshot), RUpdC, RUpdI.                              *)
 (* Expire:  the activation TTL elapses: both code keys (and the claim key, same TTL) vanish   *)
 (*          and every wall-clock validity check fails from then on.                           *)
